@@ -475,6 +475,9 @@ func rUnsupportedKinds(c *Ctx, plugins ...string) {
 		for _, r := range c.R.Runs(p) {
 			other := ""
 			for _, d := range r.Decisions {
+				if i := strings.LastIndex(d.Fn, "."); i >= 0 && leafPredNames[d.Fn[i+1:]] {
+					continue // the default arm of a call-free predicate (nullable, isOrdered) answers false, it does not accept anything
+				}
 				if strings.HasPrefix(d.Sym, "K:") && d.Choice == d.N-1 && strings.Contains(d.Sym, "Underlying()") {
 					other = d.Sym
 				}
